@@ -464,6 +464,8 @@ def applySimplePseudo (P : PEnv) (pseudo : Str) (sel : SelB) : SelB :=
 def parseHasCombinator (P : PEnv) (t : Token) (s : LS) (index : Nat) : M LS :=
   let c := combinatorOf P t
   if c == 44 then
+    -- fix c35d1b9: an empty alternative before a comma is a syntax error, as in `parse_combinator`
+    if !s.hasSelector then .error (P.err .combinatorNeedsSelector index) else
     let sel := s.sel.setRelType s.relType
     .ok { s with selectors := (modifyLast s.selectors (·.addRelations [sel])) ++ [SelB.empty],
                  relType := .hasDesc, sel := .empty, hasSelector := false }
